@@ -115,14 +115,57 @@ fn entry_choices(plan: &Plan) -> Vec<Vec<PType>> {
                     o.push(Type::new(Path::from_segments_unchecked([format!("m{i}"), format!("E{i}")]), p, d.clone(), vec![format!("doc {i}")]));
                 }
             }
+            // entries without any payload: a bare `bool` (what a registered `bool` looks like, and structurally
+            // equal to the placeholder retain uses internally) and a bare `u8`
+            o.push(Type::new(Path::default(), vec![], TypeDefPrimitive::Bool, vec![]));
+            o.push(Type::new(Path::default(), vec![], TypeDefPrimitive::U8, vec![]));
             o
         })
         .collect()
 }
 
+/// predicate kinds: 0 = pure (mask), 1 = consuming (accepts an id of the mask once, then never again),
+/// 2 = budget (accepts the first k ids offered, k = popcount(mask))
 pub fn check_retain(orig: &PortableRegistry, mask: u32, c01_only: bool) -> Option<(String, String)> {
+    check_retain_kind(orig, mask, c01_only, 0)
+}
+
+pub fn check_retain_kind(orig: &PortableRegistry, mask: u32, c01_only: bool, kind: u8) -> Option<(String, String)> {
     let mut r = orig.clone();
-    let map = r.retain(|id| mask & (1 << id) != 0);
+    let mut accepted: u32 = 0;
+    let mut calls: Vec<u32> = vec![];
+    let mut remaining = mask;
+    let mut budget = mask.count_ones();
+    let map = r.retain(|id| {
+        calls.push(id);
+        let yes = match kind {
+            0 => id < 32 && mask & (1 << id) != 0,
+            1 => {
+                let y = id < 32 && remaining & (1 << id) != 0;
+                if y {
+                    remaining &= !(1 << id);
+                }
+                y
+            }
+            _ => {
+                if budget > 0 {
+                    budget -= 1;
+                    true
+                } else {
+                    false
+                }
+            }
+        };
+        if yes && id < 32 {
+            accepted |= 1 << id;
+        }
+        yes
+    });
+    // the ids accepted by the predicate are those it answered `true` for (for a pure predicate: the mask)
+    let mask = accepted;
+    if calls.iter().any(|c| *c as usize >= orig.types.len()) {
+        return Some(("retain:filter-asked-about-unknown-id".into(), format!("the filter was asked about ids {calls:?} of a registry with {} entries", orig.types.len())));
+    }
     if let Err(e) = refs::well_formed(&r) {
         return Some(("retain:not-well-formed".into(), format!("result of retain is not well-formed: {e}")));
     }
@@ -192,9 +235,9 @@ pub fn explore(thorough: bool, c01_only: bool) -> RetainStats {
                 for k in c * chunk..((c + 1) * chunk).min(count) {
                     let orig = registry_at(&choices, k);
                     st.registries += 1;
-                    for mask in 0..(1u32 << plan.n) {
+                    for (mask, kind) in (0..(1u32 << plan.n)).flat_map(|m| (0..if c01_only { 1u8 } else { 3u8 }).map(move |k| (m, k))) {
                         st.calls += 1;
-                        let res = catch(std::panic::AssertUnwindSafe(|| check_retain(&orig, mask, c01_only)));
+                        let res = catch(std::panic::AssertUnwindSafe(|| check_retain_kind(&orig, mask, c01_only, kind)));
                         let fail = match res {
                             Ok(f) => f,
                             Err(p) => Some(("retain:panic".to_string(), format!("retain panicked: {p}"))),
@@ -206,7 +249,7 @@ pub fn explore(thorough: bool, c01_only: bool) -> RetainStats {
                         }
                         if let Some((key, msg)) = fail {
                             if st.violations.len() < 30 {
-                                st.violations.push(Violation { key, msg: format!("{msg} — registry {} filter mask {mask:#b}", brief(&orig)), case: json!({"kind": "retain", "registry_json": refjson::registry(&orig), "mask": mask}) });
+                                st.violations.push(Violation { key, msg: format!("{msg} — registry {} filter mask {mask:#b} predicate kind {}", brief(&orig), ["pure", "consuming", "budget"][kind as usize]), case: json!({"kind": "retain", "registry_json": refjson::registry(&orig), "mask": mask, "predicate": kind}) });
                             }
                         }
                     }
@@ -253,5 +296,5 @@ pub fn brief(r: &PortableRegistry) -> String {
 
 pub fn replay_case(case: &Value, c01_only: bool) -> Option<(String, String)> {
     let r = refjson::read_registry(&case["registry_json"]).ok()?;
-    check_retain(&r, case["mask"].as_u64()? as u32, c01_only)
+    check_retain_kind(&r, case["mask"].as_u64()? as u32, c01_only, case["predicate"].as_u64().unwrap_or(0) as u8)
 }
